@@ -350,6 +350,7 @@ impl Scenario for BlockLockstep {
                 "exec" => {
                     execs += 1;
                     let before = j.regs();
+                    let bank_before = i.rom_bank();
                     let hit = j.jit_lookup(before.ip as usize);
                     j.trace_start();
                     let ej = exec(j, mode, true);
@@ -361,7 +362,10 @@ impl Scenario for BlockLockstep {
                     // a block that reaches into the switchable bank and writes a bank register while it runs
                     let blk_len = j.cache_entries().iter().find(|e| e.2 as u32 == before.ip).map(|e| e.3).unwrap_or(0);
                     let reaches_high = before.ip as usize >= 0x4000 || before.ip as usize + blk_len > 0x4000;
-                    let self_switch = reaches_high && ti.iter().any(|e| e.0 == 1 && e.1 >= 0x2000 && e.1 < 0x8000);
+                    // ... and thereby remaps the bank it is running from (known-finding class; real hardware and the interpreter
+                    // fetch the next instruction from the new bank, translated code finishes the old block)
+                    let bank_writes = ti.iter().filter(|e| e.0 == 1 && e.1 >= 0x2000 && e.1 < 0x8000).count();
+                    let self_switch = reaches_high && bank_writes > 0 && (i.rom_bank() != bank_before || bank_writes > 1);
                     let cell = (fenc as u64) << 24 | ((before.af as u64 >> 4) & 0xf) << 20 | region_of(before.hl as u16) << 16 | region_of(before.sp as u16) << 12 | (case.get("age") as u64) << 4 | hit as u64;
                     match (&ej, &ei) {
                         (Exec::Panicked(pj), Exec::Panicked(pi)) => {
@@ -400,6 +404,11 @@ impl Scenario for BlockLockstep {
                             if matches!(sm83::terminator_kind(term), 1 | 4 | 6 | 9) {
                                 ctx.cov.mark("cond_outcomes", (term as u64) << 4 | ((before.af as u64 >> 4) & 0xf));
                             }
+                            if focus_c02 && self_switch {
+                                // the two engines did not run the same instructions (C01's known-finding class): C02's premise does not hold
+                                ctx.cov.hit("c02_not_compared_block_remapped_its_own_bank");
+                                return out;
+                            }
                             if focus_c02 {
                                 let (cj, ci) = if mode == 1 { (snj.get("last_block_cycles"), sni.get("last_block_cycles")) } else { (snj.get("cycles"), sni.get("cycles")) };
                                 if cj != ci {
@@ -422,12 +431,15 @@ impl Scenario for BlockLockstep {
                                 ctx.cov.add("sim_clocks", 4 * ci);
                             } else {
                                 if mode == 0 && status_class(*sj) != status_class(*si) {
-                                    out.push(Violation::new("C01", format!("C01/status"), format!("op {}: status jit {} vs interpreter {}", opi, sj, si)));
+                                    let sig = if self_switch { format!("C01/block-in-switchable-bank-writes-bank-register") } else { format!("C01/status") };
+                                    out.push(Violation::new("C01", sig, format!("op {}: status jit {} vs interpreter {}", opi, sj, si)));
                                     return out;
                                 }
                                 let cycles_differ = snj.get("cycles") != sni.get("cycles") || snj.get("last_block_cycles") != sni.get("last_block_cycles");
                                 if mode == 1 && cycles_differ {
-                                    time_diverged = true;
+                                    // C02's subject; device time (and with it interrupt arrival) is no longer comparable in this case
+                                    ctx.cov.hit("c01_case_cut_short_by_cycle_difference");
+                                    return out;
                                 }
                                 let skip: &[&str] = if time_diverged { &TIME_FIELDS } else { &SKIP_CYCLES };
                                 if let Some(field) = snj.diff_field(&sni, skip) {
